@@ -403,12 +403,23 @@ func checkConv(p *Prog, r *Report, pkg, prop string) {
 		ruleNormaliserConsts(p, r, "R05.n", prop)
 	}
 	if pkg == "nsx" {
+		// what approve creates must be read back at the next run: the load filter is the prefix every
+		// generated or raw name carries (see C07 R07.1 for the other direction)
+		ruleNSXLoadFilter(p, r)
 		ruleOrderingAudited(p, r, "R-ORD", prop, map[string]bool{pkg: true}, 2)
 	}
 	if pkg == "panos" || pkg == "nsx" {
 		ruleRewriteDiscipline(p, r, "R-FLAG", prop, map[string]bool{pkg: true}, map[string]int{"panos": 5, "nsx": 2}[pkg])
 		ruleComparatorsSymmetric(p, r, map[string]bool{pkg: true}, map[string]int{"panos": 9, "nsx": 1}[pkg])
 		ruleSides(p, r, "R-SIDE", prop, map[string]bool{pkg: true}, map[string]int{"panos": 17, "nsx": 8}[pkg])
+	}
+	if pkg == "panos" {
+		r.rule("R-KA", "Reference adaption (PAN-OS): adaptGroups rewrites a member list in place from the target's group names to the names on the device; a list that went through it once must not go through it again (a device name is looked up among the target's names and becomes another group). Every call of adaptGroups and of findGroupOnDevice lies at an audited function+site (rows compared by R-G).")
+		ruleEmitDiscipline(p, r, "R-KA", prop, "panos", []string{"(*panos.rulesPair).adaptGroups", "(*panos.rulesPair).findGroupOnDevice"}, 4)
+	}
+	if pkg == "nsx" {
+		r.rule("R-KA", "Reference adaption (NSX): every call of adaptGroup, findGroupOnDevice and addGroup lies at an audited function+site (rows compared by R-G): a group reference is adapted once, right before the rule is written.")
+		ruleEmitDiscipline(p, r, "R-KA", prop, "nsx", []string{"(*nsx.rulesPair).adaptGroup", "nsx.findGroupOnDevice", "nsx.addGroup"}, 7)
 	}
 	ruleAppendDiscipline(p, r, "R-KE", pkg, "diff.go", map[string]int{"panos": 8, "nsx": 10, "linux": 2}[pkg])
 	ruleCaseFolding(p, r, "R-FOLD", prop, map[string]bool{pkg: true})
